@@ -15,7 +15,7 @@ naming its side conditions), and for every other class a kernel-checked counter-
 Each witness is replayed on the real plugin by `harness/props/c19.go`.
 
 Ties to the source, regenerated on every run (`Gen.OaRules`, from `validation.go`):
-`getter_matches_source`, `exclusive_literals_have_no_N`, `scalar_nodes_are_untagged`,
+`getter_matches_source`, `exclusive_literals_select_number`, `scalar_nodes_are_untagged`,
 `keyword_wiring`, `format_table`.
 
 `pattern` is published verbatim and evaluated on neither side. Float printing (`strconv`) and
@@ -67,9 +67,12 @@ theorem string_list_map_getters :
     ((Gen.OaRules.cardApply.lookup "IsList").bind fun f => Gen.OaRules.applyGetter.lookup f) = some "GetRepeated" ∧
     ((Gen.OaRules.cardApply.lookup "IsMap").bind fun f => Gen.OaRules.applyGetter.lookup f) = some "GetMap" := by decide
 
-/-- every `base.DynamicValue` stored in `ExclusiveMinimum` / `ExclusiveMaximum` sets `B` only:
-`N` stays `0`, so libopenapi renders the (unset, `false`) `A` side. -/
-theorem exclusive_literals_have_no_N : ∀ t ∈ Gen.OaRules.exclusiveLits, t.2.2 = ["B"] := by decide
+/-- every `base.DynamicValue` stored in `ExclusiveMinimum` / `ExclusiveMaximum` sets `N: 1` next
+to `B` (commit de811c7), so libopenapi renders the numeric `B` side; there are the eight of
+them (gt and lt in each of the four numeric helpers). -/
+theorem exclusive_literals_select_number :
+    (∀ t ∈ Gen.OaRules.exclusiveLits, t.2.2.1 = ["N", "B"] ∧ t.2.2.2 = "1") ∧
+    Gen.OaRules.exclusiveLits.length = 8 := by decide
 
 /-- every `const` / `enum` value is a `yaml.Node` with `Kind` and `Value` only: no `Tag`, no
 quoting style. -/
@@ -112,19 +115,27 @@ example : Impl.requiredList [("a".toList, {required := true}), ("b".toList, {}),
 /-! ## classes on which schema acceptance = rule acceptance, for all bounds and all values -/
 
 /-- **integers as JSON numbers** (`int32` fields; `int64` fields with `int64_encoding = NUMBER`),
-rules declared in the field's own group: `gte`, `lte`, `const`, `in` with any bounds of
-magnitude ≤ 2^53 and ANY integer value. Partial: `gt` / `lt` must be absent
-(`w_exclusive_bound_false`), and bounds beyond 2^53 are rounded by `float64` (documented NUMBER
-limitation, `number_bound_rounds_beyond_2p53`). -/
+rules declared in the field's own group: `gt`, `gte`, `lt`, `lte`, `const`, `in` with any bounds
+of magnitude ≤ 2^53 and ANY integer value. Partial: bounds beyond 2^53 are rounded by `float64`
+(documented NUMBER limitation, `number_bound_rounds_beyond_2p53`). -/
 theorem int_rules_iff_partial (nk : NKind) (int64Number : Bool) (hk : NumberJsonInt nk int64Number)
     (c : FCard) (hc : c.isScalar = true) (r : FieldRules) (hg : r.group = nk)
-    (hgt : r.gt = none) (hlt : r.lt = none) (hgte : IntBound r.gte) (hlte : IntBound r.lte)
+    (hgt : IntBound r.gt) (hgte : IntBound r.gte) (hlt : IntBound r.lt) (hlte : IntBound r.lte)
     (i : Int) (fuel : Nat) :
     accepts [] (fuel + 1) (Impl.fieldSchema (.num nk) c int64Number r)
         (jsonForm (.num nk) int64Number (.one (.num (.int i))))
       = Spec.satisfies (.num nk) c r (.one (.num (.int i))) :=
-  int_rules_iff nk int64Number hk c hc r hg hgt hlt hgte hlte i fuel
+  int_rules_iff nk int64Number hk c hc r hg hgt hgte hlt hlte i fuel
 
+example : accepts [] 3 (Impl.fieldSchema (.num .int32) .single false
+      {group := .int32, gt := some ⟨.int 0, .int 0⟩, lt := some ⟨.int 100, .int 100⟩})
+    (jsonForm (.num .int32) false (.one (.num (.int 99)))) = true := by decide
+example : accepts [] 3 (Impl.fieldSchema (.num .int32) .single false
+      {group := .int32, gt := some ⟨.int 0, .int 0⟩, lt := some ⟨.int 100, .int 100⟩})
+    (jsonForm (.num .int32) false (.one (.num (.int 100)))) = false := by decide
+example : accepts [] 3 (Impl.fieldSchema (.num .int32) .single false
+      {group := .int32, gt := some ⟨.int 0, .int 0⟩, lt := some ⟨.int 100, .int 100⟩})
+    (jsonForm (.num .int32) false (.one (.num (.int 0)))) = false := by decide
 example : accepts [] 3 (Impl.fieldSchema (.num .int32) .single false
       {group := .int32, gte := some ⟨.int (-5), .int (-5)⟩, lte := some ⟨.int 7, .int 7⟩, numIn := [.int 7, .int 8]})
     (jsonForm (.num .int32) false (.one (.num (.int 7)))) = true := by decide
@@ -190,18 +201,25 @@ theorem map_pairs_iff_partial (r : FieldRules) (hmin : CountOK r.minPairs) (hmax
 example : accepts [] 4 (Impl.fieldSchema .string .map false {minPairs := some 2})
     (jsonForm .string false (.map [("k".toList, .str []) ])) = false := by decide
 
-/-- **float / double bounds** `gte` / `lte`, any decimal bounds and values. Partial: no `gt` /
-`lt`; in the `float` group the bound must print the same after `float64(float32)` widening
-(`w_float_bound_widened`). -/
+/-- **float / double bounds** `gt` / `gte` / `lt` / `lte`, any decimal bounds and values.
+Partial: in the `float` group every bound must print the same after `float64(float32)` widening
+(`w_float_bound_widened`); `const` / `in` are covered separately (`float_in_const_iff_partial`). -/
 theorem float_bounds_iff_partial (nk : NKind) (hk : nk = .float ∨ nk = .double) (int64Number : Bool)
     (c : FCard) (hc : c.isScalar = true) (r : FieldRules) (hg : r.group = nk)
-    (hgt : r.gt = none) (hlt : r.lt = none) (hin : r.numIn = []) (hconst : r.numConst = none)
-    (hgte : BoundParses r.gte) (hlte : BoundParses r.lte)
-    (hwl : nk = .float → WideExact r.gte) (hwh : nk = .float → WideExact r.lte)
+    (hin : r.numIn = []) (hconst : r.numConst = none)
+    (hgt : BoundParses r.gt) (hgte : BoundParses r.gte) (hlt : BoundParses r.lt) (hlte : BoundParses r.lte)
+    (hw : nk = .float → WideExact r.gt ∧ WideExact r.gte ∧ WideExact r.lt ∧ WideExact r.lte)
     (x : JNum) (hx : Parses x) (fuel : Nat) :
     accepts [] (fuel + 1) (Impl.fieldSchema (.num nk) c int64Number r) (jsonForm (.num nk) int64Number (.one (.num x)))
       = Spec.satisfies (.num nk) c r (.one (.num x)) :=
-  float_bounds_iff nk hk int64Number c hc r hg hgt hlt hin hconst hgte hlte hwl hwh x hx fuel
+  float_bounds_iff nk hk int64Number c hc r hg hin hconst hgt hgte hlt hlte hw x hx fuel
+
+example : accepts [] 3 (Impl.fieldSchema (.num .double) .single false
+      {group := .double, gt := some ⟨.float "0.1".toList, .float "0.1".toList⟩})
+    (jsonForm (.num .double) false (.one (.num (.float "0.1".toList)))) = false := by decide
+example : accepts [] 3 (Impl.fieldSchema (.num .double) .single false
+      {group := .double, gt := some ⟨.float "0.1".toList, .float "0.1".toList⟩})
+    (jsonForm (.num .double) false (.one (.num (.float "0.11".toList)))) = true := by decide
 
 /-- **float / double `const` and `in`** (no bounds), any value. -/
 theorem float_in_const_iff_partial (nk : NKind) (hk : nk = .float ∨ nk = .double) (int64Number : Bool)
@@ -222,20 +240,24 @@ def ib (i : Int) : NumB := ⟨.int i, .int i⟩
 
 def kwOf (s : Json) (k : Str) : Option Json := match s with | .obj kvs => kw k kvs | _ => none
 
-/-- `gt` / `lt` are published as `exclusiveMinimum: false` / `exclusiveMaximum: false`.
-int32 field, `lt: 100`: the keyword is the boolean `false`; read as a malformed keyword (this
-model, JSON Schema 2020-12 has no boolean form) the schema rejects the rule-satisfying `5`;
-read as absent (or as the OpenAPI 3.0 modifier of a missing `maximum`) it accepts `100`, which
-the rule rejects. -/
-theorem w_exclusive_bound_false :
-    let r : FieldRules := {group := .int32, lt := some (ib 100)}
-    let s := Impl.fieldSchema (.num .int32) .single false r
-    (kwOf s K.exclusiveMaximum).map (Json.beq (.bool false)) = some true ∧
-    Spec.satisfies (.num .int32) .single r (.one (.num (.int 5))) = true ∧
-    accepts [] 3 s (jsonForm (.num .int32) false (.one (.num (.int 5)))) = false ∧
-    Spec.satisfies (.num .int32) .single r (.one (.num (.int 100))) = false ∧
-    accepts [] 3 (match s with | .obj kvs => .obj (Json.odel K.exclusiveMaximum kvs) | x => x)
-      (jsonForm (.num .int32) false (.one (.num (.int 100)))) = true := by decide
+def ltRules : FieldRules := {group := .int32, lt := some (ib 100)}
+
+/-- regression witness for commit de811c7 (known finding `exclusive_bound_published_as_false`,
+now fixed). Before it `gt` / `lt` were published as `exclusiveMinimum: false` /
+`exclusiveMaximum: false`: int32 field, `lt: 100`: the old keyword list holds the boolean
+`false` under `exclusiveMaximum` and, read as a (malformed) 2020-12 keyword, rejects the
+rule-satisfying `5`. Now the keyword is the number 100 and the schema draws the line exactly
+where the rule does (99 accepted, 100 rejected). -/
+theorem exclusive_bound_regression :
+    (kw K.exclusiveMaximum (Impl.numericKwsBeforeDe811c7 .int32 ltRules)).map (Json.beq (.bool false)) = some true ∧
+    Schema.valid [] 3 (.obj (Impl.numericKwsBeforeDe811c7 .int32 ltRules ++ Impl.base (.num .int32) false))
+      (jsonForm (.num .int32) false (.one (.num (.int 5)))) = false ∧
+    (kwOf (Impl.fieldSchema (.num .int32) .single false ltRules) K.exclusiveMaximum).map (Json.beq (.num (.int 100))) = some true ∧
+    Spec.satisfies (.num .int32) .single ltRules (.one (.num (.int 99))) = true ∧
+    accepts [] 3 (Impl.fieldSchema (.num .int32) .single false ltRules) (jsonForm (.num .int32) false (.one (.num (.int 99)))) = true ∧
+    Spec.satisfies (.num .int32) .single ltRules (.one (.num (.int 100))) = false ∧
+    accepts [] 3 (Impl.fieldSchema (.num .int32) .single false ltRules) (jsonForm (.num .int32) false (.one (.num (.int 100)))) = false := by
+  decide
 
 /-- a 64-bit field in its default encoding is `type: string`; numeric keywords never reject a
 string. int64 field, `gte: 5`: the rule rejects `3`, the schema accepts `"3"`. -/
@@ -300,12 +322,17 @@ theorem w_string_const_empty_crash :
 
 /-- a `float` bound is widened with `float64(float32)`: `gte: 0.1` is published as
 `minimum: 0.10000000149011612`, which rejects the JSON form `0.1` of the float32 value 0.1
-that satisfies the rule. -/
+that satisfies the rule; `lt: 0.1` is published as `exclusiveMaximum: 0.10000000149011612`,
+which accepts the `0.1` the rule rejects. -/
 theorem w_float_bound_widened :
     let r : FieldRules := {group := .float, gte := some ⟨.float "0.1".toList, .float "0.10000000149011612".toList⟩}
+    let r2 : FieldRules := {group := .float, lt := some ⟨.float "0.1".toList, .float "0.10000000149011612".toList⟩}
     Spec.satisfies (.num .float) .single r (.one (.num (.float "0.1".toList))) = true ∧
     accepts [] 3 (Impl.fieldSchema (.num .float) .single false r)
-      (jsonForm (.num .float) false (.one (.num (.float "0.1".toList)))) = false := by decide
+      (jsonForm (.num .float) false (.one (.num (.float "0.1".toList)))) = false ∧
+    Spec.satisfies (.num .float) .single r2 (.one (.num (.float "0.1".toList))) = false ∧
+    accepts [] 3 (Impl.fieldSchema (.num .float) .single false r2)
+      (jsonForm (.num .float) false (.one (.num (.float "0.1".toList)))) = true := by decide
 
 /-- `max_len: 0`, `max_items: 0`, `max_pairs: 0` (only the empty value is allowed) are dropped
 by the renderer: the schema accepts everything. -/
